@@ -194,8 +194,23 @@ def mutated_object_block(rep, ctx, stream, hp_too=True, nseq=None):
                         log.append(f"inv.subtract({{{nm!r}: {a!r}}}, 'num')")
                     elif len(present) > 1:
                         nm = r.choice(present)
-                        inv.remove(nm)
-                        log.append(f"inv.remove({nm!r})")
+                        # every overload of remove(): name, canonical id, Nuclide object, list (of one or two, mixed kinds)
+                        form = r.choice(["str", "id", "nuclide", "list1", "list2"])
+                        if form == "str":
+                            arg, shown = nm, repr(nm)
+                        elif form == "id":
+                            arg = rd.Nuclide(nm).id
+                            shown = repr(arg)
+                        elif form == "nuclide":
+                            arg, shown = rd.Nuclide(nm), f"rd.Nuclide({nm!r})"
+                        elif form == "list1" or len(present) < 3:
+                            arg, shown = [nm], repr([nm])
+                        else:
+                            nm2 = r.choice([x for x in present if x != nm])
+                            arg, shown = [nm, rd.Nuclide(nm2)], f"[{nm!r}, rd.Nuclide({nm2!r})]"
+                        inv.remove(arg)
+                        log.append(f"inv.remove({shown})")
+                        gen._count("mutated-object:remove-" + form)
                     got = snap(inv, hp, t, tu)
                     fresh = C(dict(inv.contents), "num", False)
                     want = snap(fresh, hp, t, tu)
